@@ -44,6 +44,13 @@ type TxMempool struct {
 	// Atomically-updated fields
 	txsBytes int64 // atomic: the total size of all transactions in the mempool, in bytes
 
+	// updateMtx keeps a block commit (Lock ... Unlock) and the checks of new
+	// transactions apart: CheckTx holds the read side from before it looks at
+	// the cache until the transaction was inserted or dropped, so that no check
+	// is on its way to the application, or back from it, while the executor
+	// commits the block and updates the mempool. Always taken before mtx.
+	updateMtx sync.RWMutex
+
 	// Synchronized fields, protected by mtx.
 	mtx                  *sync.RWMutex
 	notifiedTxsAvailable bool
@@ -111,10 +118,16 @@ func WithMetrics(metrics *mempool.Metrics) TxMempoolOption {
 
 // Lock obtains a write-lock on the mempool. A caller must be sure to explicitly
 // release the lock when finished.
-func (txmp *TxMempool) Lock() { txmp.mtx.Lock() }
+func (txmp *TxMempool) Lock() {
+	txmp.updateMtx.Lock()
+	txmp.mtx.Lock()
+}
 
 // Unlock releases a write-lock on the mempool.
-func (txmp *TxMempool) Unlock() { txmp.mtx.Unlock() }
+func (txmp *TxMempool) Unlock() {
+	txmp.mtx.Unlock()
+	txmp.updateMtx.Unlock()
+}
 
 // Size returns the number of valid transactions in the mempool. It is
 // thread-safe.
@@ -175,6 +188,10 @@ func (txmp *TxMempool) TxsAvailable() <-chan struct{} { return txmp.txsAvailable
 // the size of tx, and adds tx instead. If no such transactions exist, tx is
 // discarded.
 func (txmp *TxMempool) CheckTx(tx types.Tx, cb func(*abci.Response), txInfo mempool.TxInfo) error {
+	// Not while a block is being committed, and no commit while this check is
+	// in flight (see updateMtx).
+	txmp.updateMtx.RLock()
+	defer txmp.updateMtx.RUnlock()
 
 	// During the initial phase of CheckTx, we do not need to modify any state.
 	// A transaction will not actually be added to the mempool until it survives
